@@ -407,7 +407,7 @@ std::string
 gen_c05()
 {
 	std::ostringstream t;
-	int mode = *gen::weightedElement<int>({{3, 0}, {2, 1}, {1, 2}});
+	int mode = *pbt::welem<int>({{3, 0}, {2, 1}, {1, 2}});
 	t << "cfg " << *pbt::range<int>(1, 1000000) << " " << mode << " " << *gen::element(10, 30, 60) << " " << *pbt::range<int>(1, 3)
 	  << " 400 0\n";
 	// usually start small so that overflow is reachable
